@@ -16,11 +16,11 @@ NsAll   == 0 .. (NsPerSec - 1)
 
 \* sub-second classes: ends, the first values that lose a nanosecond, exactly
 \* representable values (multiples of 125: n*4096/1000 is an integer), 2^k and 2^k +- 1
-Pow2 == {2 ^ k : k \in 0 .. 9}
+Pow2 == {4, 32, 256, 512}
 NsCls   == {0, 1, 2, 3, 232, 233, 499, 500, 501, 996, 997, 998, 999}
              \cup {125 * j : j \in 0 .. 7} \cup Pow2 \cup {p - 1 : p \in Pow2} \cup {p + 1 : p \in Pow2}
 NsFew   == {0, 1, 2, 232, 233, 125, 500, 511, 512, 513, 750, 997, 998, 999}
-NsGenDp == NsFew \cup {3, 124, 126, 255, 256, 257, 996}
+NsGenDp == NsFew \cup {3, 126, 255, 257}
 NsExh   == {0, 1, 233, 500, 511, 513, 998, 999}
 
 \* reference classes: every era, positions at / next to the era boundary, the middle
